@@ -16,7 +16,7 @@ PROPS = {
     "C01": dict(
         title="A DAG call returns exactly what the plain Python function would return",
         core=["REF-DEREF", "REF-KEY", "REF-FIELDS", "REF-ASDICT"],
-        aux=["REF-MAT", "REF-SHAPE", "REF-OPS", "REF-NI", "SCH-ARMS", "OWN-ARGS", "REF-GETITEM", "REF-RESERVED", "REF-TRACE", "VAL-ARGCOUNT", "OWN-STRICT", "REF-SEED", "REF-PREFIX", "REF-ACTIVE-BUILD", "REF-RESULTTRY", "REF-FUNCOPY", "REF-UNWRAP", "REF-KWNAME", "REF-FUNTRANSIENT", "SCH-ACTIVE", "REF-CALLID", "VAL-SENTINEL", "REF-SPLICEALL", "REF-ARGORDER"],
+        aux=["REF-MAT", "REF-SHAPE", "REF-OPS", "REF-NI", "SCH-ARMS", "OWN-ARGS", "REF-GETITEM", "REF-RESERVED", "REF-TRACE", "VAL-ARGCOUNT", "OWN-STRICT", "REF-SEED", "REF-PREFIX", "REF-ACTIVE-BUILD", "REF-RESULTTRY", "REF-FUNCOPY", "REF-UNWRAP", "REF-KWNAME", "REF-FUNTRANSIENT", "SCH-ACTIVE", "REF-CALLID", "VAL-SENTINEL", "REF-SPLICEALL", "REF-ARGORDER", "VAL-STORED", "OWN-CONSUME", "REF-WRAPDICT"],
         explanation="Necessary structural conditions of value equivalence, re-derived from source on every run: every reference "
                     "(node id + key path) is dereferenced only through the accessor; key paths survive every re-identification; "
                     "every reference field is handled at every reference-handling site and restored after dataclasses.asdict; "
@@ -39,7 +39,7 @@ PROPS = {
     "C03": dict(
         title="Each selected active node runs exactly once per execution, nothing else runs",
         core=["SCH-ONCE", "SCH-ORIGIN", "SCH-PRUNE", "SCH-DONE"],
-        aux=["OWN-STRICT", "OWN-FORCE", "REF-UNIQ", "GT-CYCLE", "GT-GATE", "GT-CARRY", "REF-KEY", "SCH-DEACT", "GT-POP", "GT-ALIAS", "OWN-LIVERESULTS", "REF-WRAPDICT", "REF-FUNCOPY", "REF-UNWRAP", "OWN-WRITEBACK", "SCH-ACTIVE", "GT-GATEEXACT", "REF-CALLID", "GT-EXECSETUP"],
+        aux=["OWN-STRICT", "OWN-FORCE", "REF-UNIQ", "GT-CYCLE", "GT-GATE", "GT-CARRY", "REF-KEY", "SCH-DEACT", "GT-POP", "GT-ALIAS", "OWN-LIVERESULTS", "REF-WRAPDICT", "REF-FUNCOPY", "REF-UNWRAP", "OWN-WRITEBACK", "SCH-ACTIVE", "GT-GATEEXACT", "REF-CALLID", "GT-EXECSETUP", "GT-PRESENCE"],
         explanation="Exactly-once event pattern on every loop path: the selected id leaves the runnable set exactly once on every "
                     "path that dispatches or deactivates it and never otherwise; at most one dispatch per iteration; pre-computed "
                     "ids pruned before the runnable set is formed; results map write-once; per-call-site ids.",
@@ -69,7 +69,7 @@ PROPS = {
     "C06": dict(
         title="The node that starts is always a highest-compound-priority ready node",
         core=["SCH-PRIO", "GT-CARRY", "SCH-FRESHPICK"],
-        aux=["GT-PRIO-SINK", "SCH-RSET", "GT-FORMULA", "GT-POP", "SCH-EAGER", "SCH-STALEPICK", "GT-RECONF"],
+        aux=["GT-PRIO-SINK", "SCH-RSET", "GT-FORMULA", "GT-POP", "SCH-EAGER", "SCH-STALEPICK", "GT-RECONF", "SCH-GUARD", "OWN-RUN", "GT-GATE"],
         explanation="The choice is max over the whole runnable set keyed by the executed graph's own compound-priority table; "
                     "nothing can enlarge the runnable set between choice and dispatch; the table is populated on every path by "
                     "which a graph reaches the scheduler (typestate over graph values).",
@@ -80,7 +80,7 @@ PROPS = {
     "C07": dict(
         title="Compound priority is a deterministic, documented function of the DAG",
         core=["GT-CARRY", "GT-FORMULA"],
-        aux=["GT-RECONF", "GT-POP", "GT-MODEL", "VAL-CONF", "VAL-EXPAND", "GT-STALEEXEC", "REF-WRAPDICT"],
+        aux=["GT-RECONF", "GT-POP", "GT-MODEL", "VAL-CONF", "VAL-EXPAND", "GT-STALEEXEC", "REF-WRAPDICT", "SCH-COUNT"],
         explanation="Typestate: tables carried through every sub-graph derivation; the computation has no order-dependent "
                     "iteration with loop-carried dependence and no accumulation of a child's compound value (path counting) and "
                     "matches the accepted shape 'own priority + fold over a reachability closure of own priorities'; recomputed "
@@ -101,7 +101,7 @@ PROPS = {
     "C09": dict(
         title="Every execution terminates, whatever order nodes finish in",
         core=["SCH-PROGRESS", "SCH-EXIT", "SCH-RSET"],
-        aux=["SCH-EMPTYWAIT", "SCH-DEACT", "GT-CYCLE", "ERR-CHECK", "SCH-COUNT", "GT-DEBUGINC", "SCH-DONE", "GT-NORECURSE", "SCH-ACTIVE", "REF-NONEKEY"],
+        aux=["SCH-EMPTYWAIT", "SCH-DEACT", "GT-CYCLE", "ERR-CHECK", "SCH-COUNT", "GT-DEBUGINC", "SCH-DONE", "GT-NORECURSE", "SCH-ACTIVE", "REF-NONEKEY", "LCK-PRED"],
         explanation="Ranking argument (|graph|, |runnable|) per loop path: every feasible path shrinks the graph, moves a node "
                     "from runnable to in flight, or passes a wait that provably blocks on a non-empty set; no exit but 'graph "
                     "empty'; released roots are never dropped; cycles rejected at construction.",
@@ -121,7 +121,7 @@ PROPS = {
     "C11": dict(
         title="A setup node runs at most once per DAG instance and its value is reused",
         core=["OWN-WRITEBACK", "OWN-SETUP", "SCH-PRUNE"],
-        aux=["OWN-DEEPCOPY", "VAL-SETUPDEP", "VAL-SETUPARG", "SIB-DAG", "SIB-FWD", "GT-PRESENCE", "OWN-SCHEDCOPY", "VAL-GENREUSE", "GT-ALIASNORM", "GT-DEFAULTSEL", "OWN-LIVERESULTS", "REF-WRAPDICT", "OWN-NODEEPVAL", "GT-GATEEXACT", "VAL-EMPTYFOLD", "GT-EXECSETUP"],
+        aux=["OWN-DEEPCOPY", "VAL-SETUPDEP", "VAL-SETUPARG", "SIB-DAG", "SIB-FWD", "GT-PRESENCE", "OWN-SCHEDCOPY", "VAL-GENREUSE", "GT-ALIASNORM", "GT-DEFAULTSEL", "OWN-LIVERESULTS", "REF-WRAPDICT", "OWN-NODEEPVAL", "GT-GATEEXACT", "VAL-EMPTYFOLD", "GT-EXECSETUP", "VAL-DEBUGDEP", "REF-FIELDS"],
         explanation="Who-may-write: the only element write into a DAG's results on a run path is the guarded setup write-back and "
                     "the only re-binding is setup() on a setup-only graph; pruning by membership precedes scheduling; build-time "
                     "refusals present; selection forwarded.",
@@ -131,7 +131,7 @@ PROPS = {
     "C12": dict(
         title="target / exclude / root selection executes exactly the documented closure",
         core=["GT-SELECT"],
-        aux=["GT-ALIAS", "REF-MAT", "SIB-FWD", "GT-PRESENCE", "GT-POP", "REF-DEREF", "GT-ALIASNORM", "GT-DEFAULTSEL", "REF-STUBEXEC", "GT-REFALIAS", "GT-ROOTCONST", "OWN-WRITEBACK", "GT-GATEEXACT", "VAL-EMPTYFOLD", "GT-EXECSETUP"],
+        aux=["GT-ALIAS", "REF-MAT", "SIB-FWD", "GT-PRESENCE", "GT-POP", "REF-DEREF", "GT-ALIASNORM", "GT-DEFAULTSEL", "REF-STUBEXEC", "GT-REFALIAS", "GT-ROOTCONST", "OWN-WRITEBACK", "GT-GATEEXACT", "VAL-EMPTYFOLD", "GT-EXECSETUP", "OWN-CONSUME"],
         explanation="Three guarded steps in dominance order roots -> exclude -> targets, each with the right closure primitive "
                     "(descendants incl. self / ancestors incl. self); alias order node, tag, id; the ValueErrors are reachable and "
                     "unconditional under their tests; unexecuted ids read as None.",
@@ -151,7 +151,7 @@ PROPS = {
     "C14": dict(
         title="A failing node fails the call, names itself, and starts nothing downstream",
         core=["ERR-WRAP", "ERR-CHECK", "ERR-NOSWALLOW"],
-        aux=["SCH-DONE", "SCH-EXIT", "ERR-CTX", "SCH-BIDICT", "ERR-FAILSTOP", "REF-NONEKEY", "ERR-LOGFMT", "ERR-FRAME", "REF-RESULTTRY", "SCH-POOLSIZE", "ERR-LOCFRESH"],
+        aux=["SCH-DONE", "SCH-EXIT", "ERR-CTX", "SCH-BIDICT", "ERR-FAILSTOP", "REF-NONEKEY", "ERR-LOGFMT", "ERR-FRAME", "REF-RESULTTRY", "SCH-POOLSIZE", "ERR-LOCFRESH", "SCH-GUARD"],
         explanation="The node call is wrapped with id + call location 'from e'; every newly done future is checked before the "
                     "wait helper returns and before the node is removed from the graph; no handler between the check and the API "
                     "boundary; context managers around the node call do not suppress.",
@@ -161,7 +161,7 @@ PROPS = {
     "C15": dict(
         title="Calls do not leak state: a DAG (and an executor) behaves as if freshly built",
         core=["OWN-RUN", "OWN-ARGS", "OWN-CONSUME"],
-        aux=["OWN-WRITEBACK", "VAL-EXECUTED", "OWN-COMPOSE", "OWN-SCHEDCOPY", "VAL-SETUPARG", "VAL-ARGCOUNT", "VAL-GENREUSE", "OWN-SETUP", "OWN-WBCOMPLETE", "OWN-LIVERESULTS", "VAL-CONFATOMIC", "SCH-POOLEXIT", "OWN-NODEEPVAL", "REF-FUNCOPY", "OWN-EXECFLAG", "SCH-POOLOWN", "OWN-GRAPHFROZEN"],
+        aux=["OWN-WRITEBACK", "VAL-EXECUTED", "OWN-COMPOSE", "OWN-SCHEDCOPY", "VAL-SETUPARG", "VAL-ARGCOUNT", "VAL-GENREUSE", "OWN-SETUP", "OWN-WBCOMPLETE", "OWN-LIVERESULTS", "VAL-CONFATOMIC", "SCH-POOLEXIT", "OWN-NODEEPVAL", "REF-FUNCOPY", "OWN-EXECFLAG", "SCH-POOLOWN", "OWN-GRAPHFROZEN", "GT-POP"],
         explanation="Ownership: run paths mutate only objects they created, executor fields, or the licensed setup write-back; "
                     "arguments are written into a copy; a consumed graph is fresh per call.",
         not_decided="equality of outcomes over histories (implied by non-interference, which is what is checked)",
@@ -200,7 +200,7 @@ PROPS = {
     "C19": dict(
         title="A composed DAG computes the outputs from the supplied intermediate values",
         core=["REF-FIELDS", "REF-KEY", "OWN-COMPOSE"],
-        aux=["VAL-COMPOSE", "VAL-COMPOSE-ANC", "VAL-COMPOSE-OVERLAP", "REF-REWIRE", "GT-ALIAS", "GT-POP", "REF-FUNCOPY", "OWN-NODEEPVAL", "GT-NORECURSE"],
+        aux=["VAL-COMPOSE", "VAL-COMPOSE-ANC", "VAL-COMPOSE-OVERLAP", "REF-REWIRE", "GT-ALIAS", "GT-POP", "REF-FUNCOPY", "OWN-NODEEPVAL", "GT-NORECURSE", "VAL-STORED"],
         explanation="Rewiring covers every reference field and keeps key paths; in-place edits touch deep copies only; the three "
                     "ValueErrors are reachable with tests not weaker than stated (input-depends-on-input uses the ancestor "
                     "closure).",
@@ -210,7 +210,7 @@ PROPS = {
     "C20": dict(
         title="Calling a DAG inside a DAG is equivalent to inlining it",
         core=["REF-PREFIX", "REF-ASDICT", "REF-KEY", "REF-SEED"],
-        aux=["LCK-PAIR", "REF-SHAPE", "REF-UNIQ", "REF-FLAGPRED", "REF-GETITEM", "REF-TRACE", "SIB-CTOR", "REF-STABLEID", "REF-SAMENODE", "REF-STUBEXEC", "REF-FUNCOPY", "REF-KWNAME", "VAL-SENTINEL", "REF-SPLICEALL", "REF-ARGORDER"],
+        aux=["LCK-PAIR", "REF-SHAPE", "REF-UNIQ", "REF-FLAGPRED", "REF-GETITEM", "REF-TRACE", "SIB-CTOR", "REF-STABLEID", "REF-SAMENODE", "REF-STUBEXEC", "REF-FUNCOPY", "REF-KWNAME", "VAL-SENTINEL", "REF-SPLICEALL", "REF-ARGORDER", "VAL-STORED"],
         explanation="Every inner id reaching an outer table passes the prefixer exactly once; stub ids are not seeded with "
                     "defaults; asdict restoration of every reference field; return-shape agreement; prefix push/pop paired; "
                     "registration ids call-site unique (reports the known collision).",
